@@ -142,7 +142,13 @@ channel_release(struct channel* self)
 void
 channel_accept_writes(struct channel* self, uint32_t tf)
 {
+    // The flag is part of the condition a writer checks before it sleeps in
+    // channel_write_map(), so it must change under the lock. Otherwise the
+    // store and the notification can both land between the writer's check and
+    // its wait, and the wake-up is lost.
+    lock_acquire(&self->lock);
     self->is_accepting_writes = tf;
+    lock_release(&self->lock);
     condition_variable_notify_all(&self->notify_space_available);
 }
 
